@@ -105,6 +105,14 @@ def r2(ctx):
 
 @rule("C16", "R3", "FLOW", "P adds the current label's parameter count once per maximal run of equal labels", floor=5)
 def r3(ctx):
+    ctx.reformulable = True      # a shape template of a run-length loop: see RuleCtx._foreign_combinators
+    try:
+        _r3(ctx)
+    finally:
+        ctx.reformulable = False
+
+
+def _r3(ctx):
     ana = ctx.ana
     fi, b, rt, m = _parts(ana)
     cfg, rd = ana.cfg(fi), ana.rd(fi)
